@@ -241,6 +241,9 @@ func (s *Subscription) ModifyMonitoredItems(ctx context.Context, ts ua.Timestamp
 	if err != nil {
 		return nil, err
 	}
+	if len(res.Results) != len(items) {
+		return nil, ua.StatusBadUnknownResponse
+	}
 
 	// update monitored items
 	s.itemsMu.Lock()
